@@ -56,6 +56,7 @@ def main():
     # THIS tree for the whole run.  Checks of the same tree share build/tree.lock; a check whose tree generates
     # different tables takes it exclusively, regenerates and rebuilds, then re-enters shared and re-verifies.
     import fcntl
+    MODS = [mod.MODULE] + list(getattr(mod, "EXTRA_MODULES", []))   # extra: cross-property composition theorems
     gen_info = {}
     common.BUILD.mkdir(exist_ok=True)
     treelock = open(common.BUILD / "tree.lock", "w")
@@ -74,21 +75,32 @@ def main():
         fcntl.flock(treelock, fcntl.LOCK_EX)
         try:
             gen_info = extract.generate()
-            common.lake_build([mod.MODULE] + list(mod.EXES))
+            common.lake_build(MODS + list(mod.EXES))
         finally:
             fcntl.flock(treelock, fcntl.LOCK_UN)
     else:
         raise InfraError("could not obtain a stable set of generated tables (another tree keeps regenerating them)")
     log("GEN: %s" % gen_info.get("summary", "ok"))
     ctx.gen = gen_info
-    ok, out = common.lake_build([mod.MODULE] + list(mod.EXES))
+    ok, out = common.lake_build(MODS + list(mod.EXES))
 
     # ---- 2. PROVE ------------------------------------------------------------
     broken = []          # names of theorems / obligations that no longer check
     build_errors = []
+    if not ok and len(MODS) > 1:
+        # Composition theorems (EXTRA_MODULES) join this property's model with OTHER properties' models.  If only
+        # they fail to build, the cause lies in another property's obligations, which that property's own check
+        # reports; this property's theorems are unaffected, so the extras are dropped for this run (and noted).
+        ok1, _ = common.lake_build([mod.MODULE] + list(mod.EXES))
+        if ok1:
+            log("PROVE: NOTE composition module(s) %s do not build on this tree (another property's obligations); "
+                "not part of this property's verdict" % MODS[1:])
+            ctx.extras_dropped = MODS[1:]
+            MODS = MODS[:1]
+            ok = True
     if not ok:
         # is it the proof side or the drivers?
-        okp, outp = common.lake_build([mod.MODULE])
+        okp, outp = common.lake_build(MODS[:1])
         if not okp:
             build_errors = common.lean_errors(outp)
             broken.append("lake build %s" % mod.MODULE)
@@ -104,7 +116,12 @@ def main():
         allth = common.audit(mod.MODULE)
         pre = mod.MODULE + "."
         theorems = {k[len(pre):]: v for k, v in allth.items() if k.startswith(pre)}
-        for t in mod.THEOREMS:
+        for em in MODS[1:]:
+            short = em.split(".")[-1]
+            for k, v in common.audit(em).items():
+                if k.startswith(em + "."):
+                    theorems[short + "." + k[len(em) + 1:]] = v
+        for t in list(mod.THEOREMS) + (list(getattr(mod, "EXTRA_THEOREMS", [])) if len(MODS) > 1 else []):
             if t not in theorems:
                 broken.append("theorem %s missing from %s" % (t, mod.MODULE))
         for t, axs in theorems.items():
@@ -114,11 +131,11 @@ def main():
         exe_roots = {'m_frame': 'MFrame', 'm_cmd': 'MCmd', 'm_resp': 'MResp', 'm_memval': 'MMemval',
                      'm_gearseq': 'MGearseq', 'm_devseq': 'MDevseq', 'm_memseq': 'MMemseq', 'm_wire': 'MWire',
                      'm_rx': 'MRx', 'm_drv': 'MDrv', 'm_watch': 'MWatch'}
-        hits = common.grep_forbidden([mod.MODULE] + [exe_roots[e] for e in mod.EXES if e in exe_roots])
+        hits = common.grep_forbidden(MODS + [exe_roots[e] for e in mod.EXES if e in exe_roots])
         if hits:
             broken.append("forbidden words in Lean sources: " + "; ".join(hits[:5]))
         if ctx.thorough:
-            okc, outc = common.leanchecker([mod.MODULE])
+            okc, outc = common.leanchecker(MODS)
             if not okc:
                 broken.append("leanchecker rejected %s: %s" % (mod.MODULE, outc[-500:]))
             log("PROVE: leanchecker %s" % ("ok" if okc else "FAILED"))
